@@ -22,6 +22,7 @@ import (
 	"verif/lww"
 	"verif/mc"
 	"verif/sched/drv"
+	"verif/sched/gate"
 	"verif/sched/vrt"
 )
 
@@ -41,7 +42,7 @@ var extra = []lww.Batch{
 	{I("b", 3), D("a"), S(6)},
 	{I("d", 1), S(7)},
 }
-var ids = []string{"a", "b", "c", "d", "e", "f", "x", "zz"}
+var ids = append([]string{"d", "e", "f", "x"}, lww.FamilyIDs...)
 var keys = []string{"seq", "w2"}
 
 func modelAfter(wl []lww.Batch, q int, withExtra int) *lww.Model {
@@ -65,8 +66,10 @@ type cfg struct {
 	conf    map[string]interface{}
 	unsafe  bool
 	nBatch  int
-	window  string // "workload" | "creation"
-	stepImg bool   // capture at every scheduling point, not only fs points
+	window  string   // "workload" | "creation"
+	family  []string // workload family: the execution asks the explorer which word to run (vrt.Choose)
+	word    string   // the word chosen (set per execution)
+	stepImg bool     // capture at every scheduling point, not only fs points
 }
 
 type execData struct {
@@ -80,6 +83,15 @@ func body(k cfg) func(c *drv.Ctx) {
 		wl = workload
 	}
 	return func(c *drv.Ctx) {
+		k, wl := k, wl
+		if k.family != nil {
+			// environment choice: every word of the family is explored (no deviation cost)
+			k.word = k.family[vrt.Choose(len(k.family), "workload")]
+			wl = lww.BuildWord(k.word)
+			k.wl, k.nBatch = wl, len(wl)
+			c.Observe("wl=" + k.word)
+			c.Count("family_words_run", 1)
+		}
 		ed := &execData{k: k}
 		c.Data = ed
 		dir := c.Dir + "/idx"
@@ -179,6 +191,108 @@ func body(k cfg) func(c *drv.Ctx) {
 			}
 			ed.images = append(ed.images, img)
 		}
+	}
+}
+
+// ---- gated workload families: word x gate are environment choices. Every batch runs in its own
+// client thread, started when everything the previous one set in motion has settled (WaitIdle), so
+// batches are introduced in order even while an earlier one still waits for a parked persister;
+// a batch is acknowledged when its call has returned (safe) / its persisted callback has fired (unsafe).
+func bodyGatedFamily(k cfg) func(c *drv.Ctx) {
+	menu := gate.Menu()
+	return func(c *drv.Ctx) {
+		k := k
+		k.word = k.family[vrt.Choose(len(k.family), "workload")]
+		spec := menu[vrt.Choose(len(menu), "gate")]
+		wl := lww.BuildWord(k.word)
+		k.wl, k.nBatch = wl, len(wl)
+		ed := &execData{k: k}
+		c.Data = ed
+		dir := c.Dir + "/idx"
+		acked, submitted := 0, 0
+		capture := false
+		seen := map[string]bool{}
+		vrt.Hook = func(label string) {
+			if !capture || !strings.HasPrefix(label, "fs:") {
+				return
+			}
+			img := drv.CaptureDir(dir, label)
+			key := img.Hash + fmt.Sprint(acked, submitted)
+			if seen[key] {
+				return
+			}
+			seen[key] = true
+			img.Tag["acked"], img.Tag["submitted"] = acked, submitted
+			ed.images = append(ed.images, img)
+		}
+		defer func() { vrt.Hook = nil }()
+		var idx bleve.Index
+		cf := bx.CopyConfig(k.conf)
+		if cf == nil {
+			cf = map[string]interface{}{}
+		}
+		cf["eventCallbackName"] = gate.Name
+		vrt.Free(func() {
+			var err error
+			idx, err = bleve.NewUsing(dir, bleve.NewIndexMapping(), scorch.Name, scorch.Name, cf)
+			if err != nil {
+				panic(err)
+			}
+			vrt.WaitIdle()
+		})
+		g := gate.Arm(spec)
+		defer g.Disarm()
+		capture = true
+		var wg vrt.WaitGroup
+		for j := 1; j <= len(wl); j++ {
+			j := j
+			wg.Add(1)
+			vrt.Go(func() {
+				defer wg.Done()
+				b := idx.NewBatch()
+				if err := lww.Fill(b, wl[j-1]); err != nil {
+					panic(err)
+				}
+				if k.unsafe {
+					b.SetPersistedCallback(func(err error) {
+						if err == nil && j > acked {
+							acked = j
+						}
+					})
+				}
+				if j > submitted {
+					submitted = j
+				}
+				if err := idx.Batch(b); err != nil {
+					c.Fail("error:batch", "Batch %d: %v", j, err)
+					return
+				}
+				if !k.unsafe && j > acked {
+					acked = j
+				}
+			})
+			vrt.WaitIdle()
+			if g.Step() {
+				vrt.WaitIdle()
+			}
+		}
+		parked := g.Was
+		g.Open()
+		wg.Wait()
+		vrt.Point("fs:end-of-workload")
+		vrt.WaitIdle()
+		vrt.Point("fs:quiescent")
+		capture = false
+		if parked {
+			c.Count("executions_in_which_the_gate_parked_a_background_thread", 1)
+		}
+		c.Observe(fmt.Sprintf("wl=%s gate=%s parked=%v images=%d", k.word, spec.Label, parked, bucket(len(ed.images))))
+		c.Count("family_words_x_gates_run", 1)
+		vrt.Free(func() {
+			if err := idx.Close(); err != nil {
+				c.Fail("error:close", "Close: %v", err)
+			}
+		})
 	}
 }
 
@@ -548,7 +662,7 @@ func after(c *drv.Ctx) {
 		if !seen {
 			// the "accepts further writes, closes cleanly, reopens" continuation is run for the first image of
 			// every (crash point, number of zap files, scenario) class; every image is opened and compared
-			fk := fmt.Sprintf("%s|%s|%d", k.name, im.Label, len(im.ZapFiles()))
+			fk := fmt.Sprintf("%s|%s|%s|%d", k.name, k.word, im.Label, len(im.ZapFiles()))
 			full := !fullDone[fk]
 			res = recoverImage(im, nil, nil, k, full)
 			if full && strings.HasSuffix(res, " ok") {
@@ -829,9 +943,44 @@ func Scenarios() []drv.Scenario {
 		mk(cfg{name: "safe-aggressive-merge", conf: aggressive, nBatch: 5, window: "workload"}, d0, d2r),
 		mk(cfg{name: "unsafe-2-persister-workers", conf: unsafe2, unsafe: true, nBatch: 5, window: "workload"}, d0, d2r),
 		mk(cfg{name: "safe-default-every-step", nBatch: 3, window: "workload", stepImg: true}, d0, d1),
+		// workload families: EVERY word over the batch-shape alphabet (lww.FamilyAlphabet) is a workload;
+		// default schedule for each, crash image at every effect boundary
+		fam("family-safe-nomerge", nomerge, false),
+		fam("family-safe-default-merges", nil, false),
+		fam("family-safe-partial-merges", partial, false),
+		fam("family-unsafe-2-persister-workers", unsafe2, true),
+		gfam("gated-family-safe-default-merges", nil, false, true),
+		gfam("gated-family-safe-partial-merges", partial, false, false),
+		gfam("gated-family-unsafe-2-persister-workers", unsafe2, true, true),
+		gfam("gated-family-unsafe-nomerge", map[string]interface{}{"unsafe_batch": true, "scorchMergePlanOptions": bx.NoMergePlan}, true, false),
 		mk(cfg{name: "unsafe-creation-window", conf: unsafeOnly, unsafe: true, window: "creation"}, d0, d1),
 		mk(cfg{name: "safe-creation-window", window: "creation"}, d0, d1),
 	}
+}
+
+var nomerge = map[string]interface{}{"scorchMergePlanOptions": bx.NoMergePlan}
+var partial = map[string]interface{}{"scorchMergePlanOptions": bx.PartialMergePlan}
+
+// fam: a workload-family scenario. quick = every word of length lq on the default schedule; thorough =
+// every word of length lt on the default schedule, then every word of length lt over the reduced alphabet
+// with every single deviation of the restricted class... (kept as separate scenarios so that each bound is reported)
+func fam(name string, conf map[string]interface{}, unsafe bool) drv.Scenario {
+	words := lww.PlainWords(mc.Tier())
+	k := cfg{name: name, conf: conf, unsafe: unsafe, window: "workload", family: words}
+	return drv.Scenario{Name: name, Doc: "workload family: every word over the batch-shape alphabet {n u b d w x m} (append, update+keeper, update alone, delete-only, delete-only two ids, update+delete, same id twice) after a setup batch is run as the workload (an environment choice of the explorer: all words, no deviation cost); crash image at every effect boundary, recovered and compared with the prefix model of that word",
+		Body: body(k), After: after, Quick: []drv.Phase{{Bound: 0}}, Thorough: []drv.Phase{{Bound: 0}}, Class: classOf(k)}
+}
+
+// gfam: gated workload family (word x gate menu), default schedule.
+func gfam(name string, conf map[string]interface{}, unsafe bool, quick bool) drv.Scenario {
+	words := lww.GatedWords(mc.Tier())
+	k := cfg{name: name, conf: conf, unsafe: unsafe, window: "workload", family: words}
+	gdoc := "gated workload family: every word over the batch-shape alphabet x every member of the gate menu (none; merger parked before introducing a merge / before planning, persister parked after a round / before its purge; 1st or 2nd occurrence; reopened after 1 or 2 further batches) — both environment choices of the explorer; each batch in its own client thread; crash image at every effect boundary"
+	sc := drv.Scenario{Name: name, Doc: gdoc, Body: bodyGatedFamily(k), After: after, Thorough: []drv.Phase{{Bound: 0}}, Class: classOf(k)}
+	if quick {
+		sc.Quick = []drv.Phase{{Bound: 0}}
+	}
+	return sc
 }
 
 func classOf(k cfg) string {
